@@ -4,7 +4,8 @@ Lemmas/C15LPyInt.lean — `Py.pyInt base s` on a non-empty string of plain digit
 `int(bits, 2)` and `int(w, 16)`.  Core only.
 -/
 import NetaddrVerif.Model.PyRuntime
-namespace NV.Py
+namespace NV.PyL
+open NV.Py
 
 /-- positional value, most significant digit first (digits outside the base count 0) -/
 def digitsNat (base : Nat) (s : List Char) (acc : Nat) : Nat :=
@@ -158,4 +159,4 @@ theorem pyInt2_plain (s : List Char) (hne : s ≠ []) (h : ∀ c ∈ s, ∃ d, d
   have a2 : (c == 'B') = false := by simpa using f
   simp [List.contains, List.elem, a1, a2]
 
-end NV.Py
+end NV.PyL
